@@ -168,7 +168,8 @@ def r3(repo, run):
             bare = node_obj('bare', 'ComposedNode')
             for a in attrs:
                 bare.f.pop(a, None)
-            bare.missing = set(attrs)
+            # an attribute with a class-level fallback is *not* missing on the bare instance (hasattr is true, the class value is read)
+            bare.missing = {a for a in attrs if repo.class_attr('ComposedNode', a)[1] is None}
             bare.f['_children'] = {}
             args = [bare]
             if child:
@@ -209,6 +210,53 @@ def r4(repo, run):
         run.ok('C19.R4', fi, norm(rets[0]), 'ConfigScalar(native value) + copy of __dict__')
 
 
+def _unprotected_self(e, memo):
+    """does the expression carry state of `self` that did not pass through copy.deepcopy(<...>, memo)?  (the class of self and its
+    identity are not state)"""
+    if isinstance(e, ast.Call):
+        fn = norm(e.func)
+        if fn in ('copy.deepcopy', 'deepcopy') and (len(e.args) >= 2 and norm(e.args[1]) == memo or any(k.arg == 'memo' and norm(k.value) == memo for k in e.keywords)):
+            return False
+        if fn in ('type', 'id', 'len', 'isinstance') and e.args and norm(e.args[0]) == 'self':
+            return False
+    if isinstance(e, ast.Attribute) and e.attr == '__class__' and norm(e.value) == 'self':
+        return False
+    if isinstance(e, ast.Name):
+        return e.id == 'self'
+    return any(_unprotected_self(c, memo) for c in ast.iter_child_nodes(e))
+
+
+def _deepcopy_flow(repo, fi, memo):
+    """__deepcopy__ on traces: whatever reaches the new object (state, items, attributes) from self must have passed through
+    copy.deepcopy(..., memo): a shallow copy splits nodes that are shared inside the tree, a value passed by reference is shared
+    between original and copy"""
+    out = []
+    seen = set()
+    try:
+        paths = tr.paths_of(repo, fi, no_inline={'__getstate__', '__setstate__', '_recreate', 'set_child', 'append', '__setitem__'}, follow_exceptions=False)
+    except AnalysisError:
+        return out
+    for p in paths:
+        if p.status != 'return' or p.ret is None:
+            continue
+        NEW = p.ret.text
+        for e in p.events:
+            sinks = []
+            if e.kind == 'call' and e.recv is not None and (e.recv.text == NEW or e.recv.text.startswith(NEW + '.')) and e.attr not in ('__new__',):
+                sinks = [a.ast for a in e.args] + [v.ast for v in e.kw.values()]
+            elif e.kind == 'call' and e.args and e.args[0].text == NEW and e.recv is not None and e.recv.text.split('.')[0] in ('list', 'dict', 'ComposedNode', 'ConfigNode', 'object'):
+                sinks = [a.ast for a in e.args[1:]]
+            elif e.kind == 'store' and (e.target.startswith(NEW + '.') or e.target.startswith(NEW + '[')) and e.value is not None:
+                sinks = [e.value.ast]
+            for a in sinks:
+                if _unprotected_self(a, memo) and id(e.node) not in seen:
+                    seen.add(id(e.node))
+                    t = norm(a)
+                    shallow = 'copy.copy(' in t or '.copy()' in t
+                    out.append(('%s reaches the copy without copy.deepcopy(..., %s): %s' % (t[:70], memo, 'a shallow copy bypasses the memo, so nodes shared inside the tree are split into separate copies and nested mutable state is shared' if shallow else 'state is transferred by reference: mutable fields (metadata) are shared between original and copy'), e))
+    return out
+
+
 def r5(repo, run):
     n = 0
     for fi in repo.all_functions(include_nested=False):
@@ -219,6 +267,10 @@ def r5(repo, run):
         if fi.name in ('__deepcopy__', '__copy__'):
             memo = fi.params()[1] if len(fi.params()) > 1 else None
             bad = False
+            if fi.name == '__deepcopy__' and memo:
+                for why, ev in _deepcopy_flow(repo, fi, memo):
+                    run.violation('C19.R5', tr.where(fi, ev), (ev.callee or ev.target or '')[:100], why)
+                    bad = True
             for c in calls_in(fi.node):
                 if unparse(c.func) in ('copy.deepcopy', 'deepcopy'):
                     if fi.name == '__deepcopy__' and (len(c.args) < 2 or norm(c.args[1]) != memo) and not any(k.arg == 'memo' and norm(k.value) == memo for k in c.keywords):
@@ -267,5 +319,10 @@ def mutants(repo):
                "    def __deepcopy__(self, memo):\n        ret = self._dyn_base.__new__(type(self), self._get_native_value())\n        ret.__dict__.update(self.__dict__)\n        return ret\n\n    def __reduce__(self):"), ['C19.R5']),
         Mutant('function-deepcopy-drops-memo', lambda r: in_func(r, 'FunctionNode.__bool__', "    def __bool__(self):",
                "    def __deepcopy__(self, memo):\n        import copy\n        new = type(self).__new__(type(self))\n        memo[id(self)] = new\n        new._children = {}\n        new.__dict__.update(copy.deepcopy(self.__getstate__(), memo))\n        for k, child in self.items():\n            new[k] = copy.deepcopy(child)\n        return new\n\n    def __bool__(self):"), ['C19.R5']),
+        Mutant('class-level-attribute-fallbacks', lambda r: in_func(r, 'ConfigNode.__init__', "    def __init__(self, idx=None", "    _delete = None\n    _implicit_delete = None\n    _safe = None\n    _implicit_safe = None\n    _allow_new = None\n    _implicit_allow_new = None\n\n    def __init__(self, idx=None"), ['C19.R3']),
+        Mutant('composed-deepcopy-state-by-reference', lambda r: in_func(r, 'ComposedNode.__reduce__', "    def __reduce__(self):",
+               "    def __deepcopy__(self, memo):\n        import copy\n        new = ComposedNode._recreate(type(self))\n        memo[id(self)] = new\n        new.__setstate__(self.__getstate__())\n        for k, child in self.ayns.named_children():\n            new.ayns.set_child(k, copy.deepcopy(child, memo))\n        return new\n\n    def __reduce__(self):"), ['C19.R5']),
+        Mutant('composed-deepcopy-shallow-leaves', lambda r: in_func(r, 'ComposedNode.__reduce__', "    def __reduce__(self):",
+               "    def __deepcopy__(self, memo):\n        import copy\n        new = ComposedNode._recreate(type(self))\n        memo[id(self)] = new\n        new.__setstate__(copy.deepcopy(self.__getstate__(), memo))\n        for k, child in self.ayns.named_children():\n            new.ayns.set_child(k, copy.deepcopy(child, memo) if isinstance(child, ComposedNode) else copy.copy(child))\n        return new\n\n    def __reduce__(self):"), ['C19.R5']),
         Mutant('neutral-getstate-dict-ctor', lambda r: in_func(r, 'ComposedNode.__getstate__', "state = self.__dict__.copy()", "state = dict(self.__dict__)"), neutral=True),
     ]
